@@ -858,8 +858,15 @@ MUTANTS = [
                 '        self.intervals[:] = [piece[0] for piece in pieces]\n'
                 '        self.slopes[:] = [piece[1] for piece in pieces]\n')]},
 ]
-# PENDING (white-box round 3; needs a model of np.interp in the interpreter - /tmp/gaps3/REQ3_C17.md -, then move into MUTANTS):
-#   A4 'evaluation by np.interp over the energies at the breakpoints', expect ('REF.', 'get_UoRT')
+MUTANTS += [
+    # white-box round 3, A4: np.interp is flat beyond the last breakpoint
+    {'name': 'evaluation by np.interp over the energies at the breakpoints', 'expect': ('REF.', 'get_UoRT'),
+     'edits': [(C_, "        i = np.argmax(x < np.array(self.intervals)) - 1\n        UoRT = (self.slopes[i] * x +\n"
+                "                self._intercepts[i]) / (c.R('kcal/mol/K') * T)",
+                "        energies = [slope * interval + intercept for interval, slope, intercept\n"
+                "                    in zip(self.intervals, self.slopes, self._intercepts)]\n"
+                "        UoRT = np.interp(x, self.intervals, energies) / (c.R('kcal/mol/K') * T)")]},
+]
 EQUIV = [
     # white-box review, round 2 (behaviour-preserving: must stay silent)
     {'name': 'shortcut at zero coverage',
